@@ -276,7 +276,25 @@ pub fn gen_boundary_message(rng: &mut Rng, target_total: usize, seals: &[Seal], 
 pub fn mutate(rng: &mut Rng, src: &[u8], other: Option<&[u8]>) -> Vec<u8> {
     let mut b = src.to_vec();
     let n = b.len();
-    match rng.below(21) {
+    match rng.below(22) {
+        21 if n >= 28 && b[n - 8..n - 4] == [0x80, 0x28, 0x00, 0x04] => {
+            // the FINGERPRINT value replaced by what an almost-right implementation computes: the
+            // CRC without the XOR, byte-swapped, complemented, over a prefix whose length field does
+            // not cover the attribute, XORed with the constant in the other byte order
+            let crc = crate::refimpl::crypto::crc32_fast(&b[..n - 8]);
+            let mut short = b[..n - 8].to_vec();
+            let l = (n - 28) & 0xffff;
+            set_len(&mut short, l);
+            let v: u32 = match rng.below(6) {
+                0 => crc,
+                1 => (crc ^ 0x5354_554e).swap_bytes(),
+                2 => !(crc ^ 0x5354_554e),
+                3 => crate::refimpl::crypto::crc32_fast(&short) ^ 0x5354_554e,
+                4 => crc ^ 0x4e55_5453,
+                _ => crc.swap_bytes() ^ 0x5354_554e,
+            };
+            b[n - 4..].copy_from_slice(&v.to_be_bytes());
+        }
         0 if n > 0 => {
             let i = rng.usize(n);
             b[i] ^= 1 << rng.usize(8);
@@ -613,7 +631,7 @@ pub fn all_kinds() -> &'static [Kind] {
 /// information (MAPPED-ADDRESS and XOR-MAPPED-ADDRESS naming the same address, an error code with
 /// the attributes that code calls for, ICE connectivity checks, a relayed message nested in a DATA
 /// attribute), sealed the way such messages are.  `variant` selects the shape (0..REALISTIC_VARIANTS).
-pub const REALISTIC_VARIANTS: u32 = 10;
+pub const REALISTIC_VARIANTS: u32 = 11;
 pub fn gen_realistic_message(rng: &mut Rng, variant: u32) -> (Vec<u8>, RefCreds) {
     use crate::refimpl::attrs::{RefAddr, RefVal};
     let tid = gen_tid(rng);
@@ -699,6 +717,16 @@ pub fn gen_realistic_message(rng: &mut Rng, variant: u32) -> (Vec<u8>, RefCreds)
             tlvs.push(Tlv::new(0x0012, enc(Kind::XorMappedAddress, RefVal::Addr(addr(rng, v6)), &tid)));
             tlvs.push(Tlv::new(0x0013, inner));
             (1, 7, vec![])
+        }
+        9 => {
+            // attributes whose VALUE begins like a STUN header continues (magic cookie, then a
+            // transaction id): read from such an attribute's own header on, the bytes look like the
+            // start of another message
+            tlvs.push(Tlv::new(0x8022, b"cookie".to_vec()));
+            tlvs.push(Tlv::new(0x0033, [&[0x21u8, 0x12, 0xa4, 0x42][..], &tid[..], &rng.bytes(8)].concat()));
+            tlvs.push(Tlv::new(0x0024, enc(Kind::Priority, RefVal::U32(rng.next() as u32), &tid)));
+            tlvs.push(Tlv::new(0x3fff, [&[0x21u8, 0x12, 0xa4, 0x42][..], &rng.bytes(20)].concat()));
+            (if rng.chance(1, 2) { 0 } else { 2 }, 1, vec![])
         }
         _ => {
             // both integrity attributes (RFC 8489 transition) on a Binding success
